@@ -116,8 +116,51 @@ fn offbig(dl: u64) -> String {
     format!("ok {} {} {} {} wlen={} clen=3 i1={} i2={}", o.lead, o.signature_header, o.header, o.payload, c.n + 3, same, same)
 }
 
+/// `offbig16 WHICH N DL`: the signature (`s`) or MAIN (`h`) header has N NULL entries (tag = index, type 0) and a DL-byte
+/// store, the other header is empty, 3 payload bytes. `Header::size` / `get_package_segment_offsets` with
+/// `num_entries * 16` beyond u32 (N >= 2^28; needs ~5 GiB for the bytes and ~13 GiB for the parsed entries) and with large
+/// MAIN stores; smaller N / DL run in the quick tier.
+fn offbig16(which: &str, n: u64, dl: u64) -> String {
+    let mut bytes = gen_lead(&mut Rng::new(1), false);
+    let empty = [0x8e, 0xad, 0xe8, 1, 0, 0, 0, 0, 0, 0, 0, 0, 0, 0, 0, 0];
+    let big = |bytes: &mut Vec<u8>, pad: bool| {
+        bytes.extend_from_slice(&[0x8e, 0xad, 0xe8, 1, 0, 0, 0, 0]);
+        bytes.extend_from_slice(&(n as u32).to_be_bytes());
+        bytes.extend_from_slice(&(dl as u32).to_be_bytes());
+        bytes.reserve((16 * n + dl + 32) as usize);
+        for i in 0..n {
+            bytes.extend_from_slice(&(i as u32).to_be_bytes());
+            bytes.extend_from_slice(&[0u8; 12]);
+        }
+        let p = if pad { (8 - dl % 8) % 8 } else { 0 };
+        bytes.resize(bytes.len() + (dl + p) as usize, 0);
+    };
+    if which == "s" {
+        big(&mut bytes, true);
+        bytes.extend_from_slice(&empty);
+    } else {
+        bytes.extend_from_slice(&empty);
+        big(&mut bytes, false);
+    }
+    bytes.extend_from_slice(&[1, 2, 3]);
+    let total = bytes.len() as u64;
+    let p = match rpm::PackageMetadata::parse(&mut &bytes[..]) {
+        Ok(p) => p,
+        Err(_) => return "err".into(),
+    };
+    drop(bytes);
+    let o = p.get_package_segment_offsets();
+    let mut c = Counting { n: 0 };
+    if p.write(&mut c).is_err() {
+        return "err-write".into();
+    }
+    let same = c.n + 3 == total;
+    format!("ok {} {} {} {} wlen={} clen=3 i1={} i2={}", o.lead, o.signature_header, o.header, o.payload, c.n + 3, same, same)
+}
+
 pub fn eval(op: &str, a: &[&str]) -> Option<String> {
     match op {
+        "offbig16" => Some(offbig16(a[0], a[1].parse().ok()?, a[2].parse().ok()?)),
         "offsets" => Some(observe(&arg_bytes(a[0]))),
         "offv" => Some(observe_variant(a[0], &arg_bytes(a[1]))),
         "offbig" => Some(offbig(a[0].parse().ok()?)),
@@ -166,10 +209,19 @@ pub fn gen(ctx: &mut Ctx) {
                 ctx.req(&format!("offsets {}", hx(&assemble(&lead, &sig, 0, &hdr, &[9u8; 25]))));
             }
         }
+        // widths (audit a15): many entries / a large store in the MAIN header as well as in the signature header; the sizes
+        // where `num_entries * 16` or the sum leaves u32 are thorough-only (memory), the code path is the same
+        for (which, n, dl) in [("h", 0u64, 70_000u64), ("h", 4096, 100_001), ("h", 65_536, 0), ("s", 65_536, 5), ("h", 1 << 20, 3), ("s", 1 << 18, 7)] {
+            ctx.req(&format!("offbig16 {} {} {}", which, n, dl));
+        }
         if ctx.thorough {
             // the >= 4 GiB guard of the old u32 arithmetic: stores just below 2^32 (8-9 GiB of RAM, ~20 s)
             ctx.req("offbig 4294967280");
             ctx.req("offbig 4294967295");
+            // the same for the MAIN header, and 2^28 index entries (16 * 2^28 = 2^32: `Header::size` and `size_rest` must widen
+            // before they multiply; 21 GiB of RAM, 1 - 10 min depending on the load of the machine)
+            ctx.req("offbig16 h 0 4294967295");
+            ctx.req("offbig16 h 268435456 0");
         }
     }
     let n = ctx.q(10_000u64, 200_000) / sn;
